@@ -43,6 +43,7 @@ def generate(seed, batch):
     scen = {'prop': PROP, 'seed': seed, 'batch': batch}
     scen['v0'] = {'cls': rng.choice(['gauss', 'gauss', 'const', 'alt', 'ramp', 'spike']), 'seed': rng.getrandbits(40)}
     scen['faults'] = []
+    scen['second_v0'] = rng.random() < 0.25
     if batch in ('F0', 'FI'):
         n = rng.choice([5, 6, 8, 12, 20, 30, 45, 60, 90, 120, rng.randint(5, 200), rng.randint(5, 400)])
         scen['impl'] = rng.choice(['analysis', 'analysis', 'panel', 'conecyl'])
@@ -121,7 +122,7 @@ def shrink_candidates(scen):
             c = copy.deepcopy(scen)
             del c['faults'][i]
             yield c
-    for key, val in (('scale_s', None), ('cross_path', False), ('redefine_flags', None)):
+    for key, val in (('scale_s', None), ('cross_path', False), ('redefine_flags', None), ('second_v0', False)):
         if scen.get(key) not in (val,):
             c = copy.deepcopy(scen)
             c[key] = val
@@ -449,6 +450,17 @@ def execute(scen):
                 else:
                     check_result(scen, Kd, Gd, active, vals2, vecs2, pos, k, not sparse, ref, log, res, tag='(other-path)')
                     bump(res['probes'], 'E4_checked')
+            if scen.get('second_v0'):
+                # the same analysis from another start vector / restart stream: still the true eigenpairs
+                seam.scen = dict(scen, v0={'cls': 'gauss', 'seed': scen['v0']['seed'] ^ 0x5DEECE66D})
+                try:
+                    vals4, vecs4, _ = call_impl(scen, K, KG, k, sparse, obj=None if scen['src'] == 'random' else obj)
+                except Exception as e:
+                    bump(res['exceptions'], 'second_v0_' + type(e).__name__)
+                else:
+                    check_result(scen, Kd, Gd, active, vals4, vecs4, pos, k, sparse, ref, log, res, tag='(other-start-vector)')
+                    bump(res['probes'], 'second_start_vector_checked')
+                seam.scen = scen
             s = scen.get('scale_s')
             if sub and s and scen['src'] == 'random' and lam_pos.min() / s > 1.0:
                 try:
